@@ -16,6 +16,7 @@ import (
 	"fmt"
 	"os"
 	"path/filepath"
+	"strings"
 	"time"
 
 	"github.com/nuetzliches/hookaido/internal/queue"
@@ -391,6 +392,168 @@ func (w *CrashSysWorld) pull(kind string, routeIdx, batch, ref int) {
 	}
 }
 
+// pullRace: the same single-lease request (ack or nack of one lease) is sent two
+// or three times at once - a consumer that retries while its first attempt is
+// still in flight. Every statement of the Pull API handlers and both sides of
+// the store calls are scheduling points. The process may die at a drawn
+// scheduling decision, at the instant one of the requests has been answered
+// while another is still in flight, or at a disk operation (fault plan).
+// Oracle: an answer 204 that was written before the process died is an
+// acknowledgement: after restart the lease operation has taken effect. If no
+// request was answered, the operation is in doubt.
+func (w *CrashSysWorld) pullRace(s Step) {
+	var pr []*RouteSpec
+	for i := range w.Spec.Routes {
+		if w.Spec.Routes[i].PullPath != "" {
+			pr = append(pr, &w.Spec.Routes[i])
+		}
+	}
+	if len(pr) == 0 || len(w.leases) == 0 {
+		return
+	}
+	kind := s.Reason
+	r := pr[0]
+	ref := s.Batch
+	if ref < 0 {
+		ref = -ref
+	}
+	id := w.leases[len(w.leases)-1-ref%len(w.leases)]
+	// the endpoint of the route the lease belongs to
+	if x := w.Model.findLease(id); x != nil {
+		for _, c := range pr {
+			if c.Path == x.Route {
+				r = c
+			}
+		}
+	}
+	now := w.Clock.Peek()
+	hdrs := []KV{{"Authorization", "Bearer " + w.Spec.PullTokens[0]}, {"Content-Type", "application/json"}}
+	body := map[string]any{"lease_id": id}
+	op := opAck
+	if kind == "nack" {
+		body["delay"] = "5s"
+		op = opNack
+	}
+	b, _ := json.Marshal(body)
+	n := 2
+	if s.Pad {
+		n = 3
+	}
+	w.Res.Ops++
+	var tasks []*Task
+	for i := 0; i < n; i++ {
+		req, _ := NewRequest("POST", r.PullPath+"/"+kind, "pull.internal", "10.9.9.9:5", hdrs, b)
+		tasks = append(tasks, w.Start("pullrace", w.Pull, req))
+	}
+	methods := []string{"Ack", "Nack", "MarkDead", "AckBatch", "NackBatch"}
+	for _, m := range methods {
+		w.armedStore[m], w.armedStore[m+".after"] = true, true
+	}
+	w.Sched.SetArmed(func(l string) bool { return strings.HasPrefix(l, "pullapi.Server.") || strings.HasPrefix(l, "store.") })
+	w.Sched.DetectBlocked = true
+	step0 := w.Sched.Steps
+	crashedAt := ""
+	w.Sched.OnDecision = func(step int) {
+		if w.Disk.Dead() {
+			w.Sched.MarkDead(w.group)
+			w.Sched.Halt = true
+			return
+		}
+		die := false
+		if s.CrashStep != nil && step-step0 == *s.CrashStep {
+			die, crashedAt = true, fmt.Sprintf("before scheduling decision %d", step-step0)
+			w.Res.probe("pullrace.crash.between_statements")
+		}
+		if s.CrashAfterTask != nil && *s.CrashAfterTask < len(tasks) && tasks[*s.CrashAfterTask].Done() {
+			live := false
+			for i, t := range tasks {
+				if i != *s.CrashAfterTask && !t.Done() && t.ParkedAt() != "start" {
+					live = true
+				}
+			}
+			if live {
+				die, crashedAt = true, fmt.Sprintf("when request %d had been answered and another was in flight", *s.CrashAfterTask)
+				w.Res.probe("pullrace.crash.after_one_answered")
+			}
+		}
+		if die {
+			w.Disk.Kill()
+			w.pending = &Fault{Action: "crash." + s.Image, ImgSeed: s.ImgSeed}
+			w.Res.fault("crash." + s.Image)
+			w.Sched.MarkDead(w.group)
+			w.Sched.Halt = true
+		}
+	}
+	w.inOp = true
+	k := w.Sched.InterleaveBlocking(tasks, s.Sched)
+	w.inOp = false
+	w.Sched.OnDecision, w.Sched.Halt = nil, false
+	w.Sched.SetArmed(nil)
+	w.Sched.DetectBlocked = false
+	for _, m := range methods {
+		delete(w.armedStore, m)
+		delete(w.armedStore, m+".after")
+	}
+	dead := w.Disk.Dead()
+	switch {
+	case k == "done", k == "halted", k == "deadlock" && dead, k == "crashed":
+	case k == "deadlock":
+		w.add("pullrace.deadlock", "syscrash/pullrace", "concurrent %s requests for one lease are stuck waiting for one another", kind)
+		return
+	default:
+		w.Res.Trouble = "pullrace: " + k + " " + w.Sched.Trouble
+		return
+	}
+	var sts []string
+	n204, nLost := 0, 0
+	for _, t := range tasks {
+		fk := "dead"
+		if t.Done() {
+			fk = "done"
+		}
+		resp := w.finish(t, fk)
+		switch {
+		case resp.Lost:
+			nLost++
+			sts = append(sts, "lost")
+		default:
+			sts = append(sts, fmt.Sprint(resp.Status))
+			if resp.Status == 204 {
+				n204++
+			}
+		}
+	}
+	if w.Sched.Switches > 1 {
+		w.Res.probe("pullrace.interleaved")
+	}
+	w.Res.logf("pull race: %d x %s of one lease -> %s%s", n, kind, strings.Join(sts, " "), map[bool]string{true: " (process died " + crashedAt + ")", false: ""}[dead])
+	switch {
+	case n204 > 0:
+		// acknowledged to the consumer: the operation has taken effect and no
+		// crash undoes it (a second 204 is the idempotent answer to the duplicate)
+		if cls := w.Model.applyLease(now, op, id, 5*time.Second, ""); cls != "ok" {
+			// the idempotent answer to a duplicate of an operation that succeeded
+			// earlier (judged for C04 by the pull world): no effect
+			w.Res.probe("pullrace.idempotent_or_stale")
+		} else {
+			w.Res.probe("pullrace.acknowledged")
+			if dead {
+				w.Res.probe("pullrace.acknowledged_then_died")
+			}
+		}
+	case nLost > 0:
+		m := w.Model.Clone()
+		m.applyLease(now, op, id, 5*time.Second, "")
+		w.variants = append(w.variants, m)
+		w.Res.probe("pullrace.in_doubt")
+	default:
+		w.Model.applyLease(now, op, id, 5*time.Second, "") // all refused: a stale or expired lease is released
+	}
+	if !dead {
+		w.observe("pull race " + kind)
+	}
+}
+
 func RunCrashSysProgram(p *Program) *Result {
 	var sys ingressSys
 	if err := json.Unmarshal(p.Sys, &sys); err != nil || sys.Spec == nil {
@@ -417,6 +580,8 @@ func RunCrashSysProgram(p *Program) *Result {
 			w.publish(s.Batch)
 		case "pull":
 			w.pull(s.Reason, s.Batch, s.Batch, s.Batch)
+		case "pullrace":
+			w.pullRace(s)
 		case "advance":
 			w.Clock.Advance(s.D)
 			w.Res.Ops++
@@ -515,6 +680,44 @@ func GenCrashSysProgram(t *rapid.T) *Program {
 			p.Steps = append(p.Steps, Step{Op: "advance", D: rapid.SampledFrom([]time.Duration{time.Second, 30 * time.Second, 61 * time.Second}).Draw(t, "d")})
 		default:
 			p.Steps = append(p.Steps, Step{Op: "crash", Image: rapid.SampledFrom([]string{"kill", "powerloss"}).Draw(t, "image"), ImgSeed: int64(rapid.IntRange(0, 1<<20).Draw(t, "imgseed"))})
+		}
+	}
+	if rapid.IntRange(0, 2).Draw(t, "pullrace?") == 0 {
+		// a consumer retries an ack / nack while its first attempt is in flight
+		var pulls []int
+		for i, r := range spec.Routes {
+			if r.PullPath != "" {
+				pulls = append(pulls, i)
+			}
+		}
+		if len(pulls) > 0 {
+			ri := pulls[rapid.IntRange(0, len(pulls)-1).Draw(t, "pr.route")]
+			st := Step{Op: "pullrace", Reason: rapid.SampledFrom([]string{"ack", "ack", "nack"}).Draw(t, "pr.kind"), Batch: 0, Pad: rapid.IntRange(0, 3).Draw(t, "pr.three") == 0,
+				Image: rapid.SampledFrom([]string{"kill", "kill", "powerloss"}).Draw(t, "pr.image"), ImgSeed: int64(rapid.IntRange(0, 1<<20).Draw(t, "pr.imgseed"))}
+			type seg struct{ who, n int }
+			segs := rapid.SliceOfN(rapid.Custom(func(t *rapid.T) seg {
+				return seg{rapid.IntRange(0, 2).Draw(t, "who"), rapid.SampledFrom([]int{1, 2, 3, 5, 8, 13, 21, 34}).Draw(t, "len")}
+			}), 0, 8).Draw(t, "pr.sched")
+			for _, sg := range segs {
+				for i := 0; i < sg.n && len(st.Sched) < 200; i++ {
+					st.Sched = append(st.Sched, sg.who)
+				}
+			}
+			switch rapid.IntRange(0, 4).Draw(t, "pr.crash") {
+			case 0:
+			case 1:
+				st.CrashStep = intp(rapid.IntRange(1, 60).Draw(t, "pr.crash_step"))
+			default:
+				st.CrashAfterTask = intp(rapid.IntRange(0, 1).Draw(t, "pr.crash_after"))
+			}
+			// the pull route index among pull routes for the dequeue step
+			pi := 0
+			for k, v := range pulls {
+				if v == ri {
+					pi = k
+				}
+			}
+			p.Steps = append(p.Steps, Step{Op: "ingress", Batch: ri}, Step{Op: "pull", Reason: "dequeue", Batch: len(pulls) + pi}, st)
 		}
 	}
 	nf := rapid.SampledFrom([]int{0, 1, 1, 2, 2, 3}).Draw(t, "nfaults")
